@@ -2,13 +2,13 @@
 import CruxVerif.Lemmas.RPoll
 namespace M.Rt
 
-theorem pollBlock_rgood (pn) (hpn : PnW pn) : ∀ f, RGood pn f
+theorem pollBlock_rgood (pn) (hpn : PnW pn) (hpx : PnX pn) : ∀ f, RGood pn f
   | 0 => by intro wk p b w r w' h; simp [pollBlock] at h
-  | f + 1 => rgood_succ pn hpn f (pollBlock_rgood pn hpn f)
+  | f + 1 => rgood_succ pn hpn hpx f (pollBlock_rgood pn hpn hpx f)
 
 def PollW (poll : Waker → Sink → Block → World → Option (PollRes × World)) : Prop :=
-  ∀ wk p b w r w', poll wk (.cmd p) b w = some (r, w') → WFw w → inRangeB (LL w).1 (LL w).2 b = true →
-    WFw w' ∧ (LL w).1 ≤ (LL w').1 ∧ (LL w).2 ≤ (LL w').2 ∧ rangeRes w' r
+  ∀ wk sink b w r w', poll wk sink b w = some (r, w') → WFw w → inRangeB (LL w).1 (LL w).2 b = true →
+    WFw w' ∧ (LL w).1 ≤ (LL w').1 ∧ (LL w).2 ≤ (LL w').2 ∧ rangeRes w' r ∧ spawnR w w'
 def RunW (runTask : Nat → Nat → World → Option (TaskState × World)) : Prop :=
   ∀ c tid w st w', runTask c tid w = some (st, w') → WFw w → WFw w' ∧ (LL w).1 ≤ (LL w').1 ∧ (LL w).2 ≤ (LL w').2
 def SettleW (settle : Nat → World → Option World) : Prop :=
@@ -36,7 +36,7 @@ theorem runTaskF_w (poll) (hp : PollW poll) : RunW (runTaskF poll) := by
         exact ⟨k.1, k.2.1, k.2.2.1⟩
       · rename_i b w1 hpoll
         have k := hp _ _ _ _ _ _ hpoll hw0 htr
-        have hb : inRangeB (LL w1).1 (LL w1).2 b = true := k.2.2.2
+        have hb : inRangeB (LL w1).1 (LL w1).2 b = true := k.2.2.2.1
         have h2 : WFw (w1.modCmd c fun x => { x with tasks := x.tasks.set tid { t with fut := b } }) := by
           refine k.1.modCmd_gen c _ ?_ ?_
           · intro x t' ht'
@@ -210,7 +210,8 @@ theorem pollAt_w : ∀ d, PollW (pollAt d)
   | 0 => by intro wk p b w r w' h; simp [pollAt] at h
   | d + 1 => by
     intro wk p b w r w' h
-    exact pollBlock_rgood _ (pollNextF_w _ (runUntilSettledF_w _ (runTaskF_w _ (pollAt_w d)))) loopFuel wk p b w r w' h
+    exact pollBlock_rgood _ (pollNextF_w _ (runUntilSettledF_w _ (runTaskF_w _ (pollAt_w d))))
+      (pollNextF_x _ (runUntilSettledF_x _ (runTaskF_x _ (pollAt_x d)))) loopFuel wk p b w r w' h
 
 theorem runTask_w : RunW runTask := runTaskF_w _ (pollAt_w depthFuel)
 theorem runUntilSettled_w : SettleW runUntilSettled := runUntilSettledF_w _ runTask_w
